@@ -66,6 +66,17 @@ def quick():
     c.append(Cfg("two_tol_nearest", (DS("ds1", T2, (0.0, 1.0, 2.0)), DS("ds2", T2, (0.25, 1.5, 2.1), scale=True)), groups={"default": (True, VP)}, tol=0.3))
     c.append(Cfg("two_tol_forward", (DS("ds1", T2, (0.0, 1.0, 2.0)), DS("ds2", T2, (-0.25, 0.75, 2.1))), groups={"default": (True, VP)}, tol=0.3, method="forward"))
     c.append(Cfg("two_tol_backward", (DS("ds1", T2, (0.0, 1.0, 2.0)), DS("ds2", T2, (0.25, 0.75, 2.1))), groups={"default": (True, VP)}, tol=0.3, method="backward"))
+    # index-dependent matrices in a linked group whose second dataset is linked forward / within a tolerance larger than half its
+    # own spacing: the slice of the 3-d matrix and the reported coordinate are those of the dataset's *own* index, not of the
+    # own point nearest to the aligned value
+    c.append(Cfg("two_tol_forward_dep", (DS("ds1", T2, (0.0, 1.0, 2.0)), DS("ds2", T3, (-0.8, 0.3, 1.4, 2.6), scale=True)), megacomplexes=M1D, groups={"default": (True, VP)}, tol=0.9, method="forward"))
+    c.append(Cfg("two_tol_dense_second", (DS("ds1", T2, (1.0, 2.0, 3.0)), DS("ds2", T2, (1.4, 1.5, 3.0), weight=True)), megacomplexes=M1D, groups={"default": (True, VP)}, tol=0.45))
+    # dataset groups declared interleaved: d1 -> default, d2 -> g2, d3 -> default
+    c.append(Cfg("groups_interleaved", (DS("ds1", T2, (0.0, 1.0), scale=True), DS("ds2", T2, (0.0, 1.0), group="g2"), DS("ds3", T3, (1.0, 2.0))), groups={"default": (False, VP), "g2": (False, VP)}))
+    c.append(Cfg("groups_interleaved_linked", (DS("ds1", T2, (0.0, 1.0)), DS("ds2", T2, (0.0, 1.0), group="g2", weight=True), DS("ds3", T3, (1.0, 2.0), scale=True)), groups={"default": (True, VP), "g2": (None, NNLS)}))
+    # unlinked, index dependent: a relation removes its target at the first global index only, a zero constraint on the same target
+    # acts elsewhere on the axis (the labels at the first index are not the labels at every index)
+    c.append(Cfg("relation_first_index_zero_later_dep", (DS("ds1", T3, (1.0, 2.0, 3.0, 4.0)),), megacomplexes={"m1": (("s1", "s2", "s3"), True)}, relations=(("s1", "s2", (1.0, 1.0)),), constraints=(("zero", "s2", (3.0, 4.0)),), groups={"default": (False, VP)}))
     # several megacomplexes
     c.append(Cfg("mc_shared_labels_scales", (DS("ds1", T3, (0.0, 1.0), megacomplexes=("m1", "m2"), mc_scales=True, scale=True),), megacomplexes=M2, groups={"default": (False, VP)}))
     # a linked group whose first dataset has an index-dependent matrix and whose second has not, sharing several aligned indices
